@@ -12,6 +12,7 @@ pub mod c09;
 pub mod c11;
 pub mod c12;
 pub mod c13;
+pub mod c17;
 pub mod c14;
 pub mod c15;
 pub mod c20;
@@ -39,6 +40,7 @@ pub fn dispatch(engine: &str, cfg: &Cfg) -> i32 {
         "c11" => c11::run(cfg),
         "c12" => c12::run(cfg),
         "c13" => c13::run(cfg),
+        "c17" => c17::run(cfg),
         "c14" => c14::run(cfg),
         "c15" => c15::run(cfg),
         "c20" => c20::run(cfg),
